@@ -101,6 +101,8 @@ Definition has_regex_chars (v : str) : bool :=
 
 Definition is_numeric_type (t : dtype) : bool :=
   match t with TInt | TInt64 | TInt64List | TFloat => true | _ => false end.
+Definition is_list_type (t : dtype) : bool :=
+  match t with TStrList | TSvcMemberList | TIfaceList => true | _ => false end.
 Definition is_numeric_op (o : op) : bool :=
   match o with OEq | ONe | OGt | OGe | OLt | OLe | OGrpNot => true | _ => false end.
 
@@ -163,7 +165,7 @@ Definition parse_leaf (optimize : bool) (t : tschema) (args : str) : res leaf :=
                 let '(o, sv) :=
                   if optimize && has_prefix (s "^") val && has_suffix (s "$") val then
                     let val2 := trim_suffix (s "$") (trim_prefix (s "^") val) in
-                    if has_regex_chars val2 || is_numeric_type (c_type col) then (o, sv)
+                    if has_regex_chars val2 || is_list_type (c_type col) || is_numeric_type (c_type col) then (o, sv)
                     else match o with ORe => (OEq, val2) | OReI => (OEqI, val2) | _ => (o, sv) end
                   else (o, sv) in
                 if optimize && negb (has_regex_chars val) then
